@@ -140,6 +140,9 @@ class Core:
             if not sv.env and sv.frame is None and sv.self_sv is None:
                 # a module-level function: one stable value
                 c = th.const(key)
+                if not hasattr(self, 'fn_by_const'):
+                    self.fn_by_const = {}
+                self.fn_by_const[c.decl().name()] = sv
                 return c
             envkey = getattr(sv, '_envkey', None)
             if envkey is None:
@@ -148,6 +151,7 @@ class Core:
                 envkey = self._closure_ctr
                 object.__setattr__(sv, '_envkey', envkey)
             c = th.const(f'{key}#{self.cur_func_key}#{envkey}')
+            self.closure_identity(sv, c, st)
             self.summarize_closure(sv, c)
             return c
         if isinstance(sv, VBuiltin):
@@ -182,6 +186,31 @@ class Core:
                     st.add(z3.ForAll([i], z3.Implies(z3.And(i >= 0, i < sv.n), z3.And(*(s0.pc + [z3.Select(th.sq_arr(t), i) == ev])))))
             return t
         raise OutOfSubset(f'cannot reify {type(sv).__name__}')
+
+    def closure_identity(self, f, c, st):
+        """Definitional facts about a closure value: which function text it is (closure_code) and what each free variable it
+        reads was bound to when it was created (closure_free_<name>). Sound as long as those variables are not rebound later."""
+        key = 'ident:' + str(c)
+        if key in self.func_summ:
+            return
+        self.func_summ.add(key)
+        th = self.th
+        if not hasattr(self, '_key_by_node'):
+            self._key_by_node = {id(fi.node): fi.key for fi in self.idx.funcs.values()}
+        self.standing.append(th.fn('closure_code', th.Val, th.Val)(c) == th.strc(self._key_by_node.get(id(f.node), f'{f.module}:{f.qual}')))
+        if not f.env or st is None:
+            return
+        a = f.node.args
+        bound = {p.arg for p in a.posonlyargs + a.args + a.kwonlyargs} | ({a.vararg.arg} if a.vararg else set()) | ({a.kwarg.arg} if a.kwarg else set())
+        body = f.node.body if isinstance(f.node.body, list) else [f.node.body]
+        names = sorted({n.id for b in body for n in ast.walk(b) if isinstance(n, ast.Name) and isinstance(n.ctx, ast.Load)} - bound)
+        for nm in names:
+            v = f.env.get(nm)
+            if isinstance(v, (VVal, VBool, VInt, VClass)) or (isinstance(v, VTuple) and all(isinstance(x, (VVal, VClass)) for x in v.items)):
+                try:
+                    self.standing.append(th.fn('closure_free_' + nm, th.Val, th.Val)(c) == self.toVal(v, st))
+                except OutOfSubset:
+                    pass
 
     def summarize_closure(self, f, c):
         """Definitional axioms for a closure that escapes as a value: calling the value behaves as its body.
